@@ -1,6 +1,6 @@
 """Client side of a TCP exchange with the responder, at the frame boundary."""
 from . import pkt
-from .pkt import SYN, ACK, PSH, FIN, RST
+from .pkt import SYN, ACK, PSH, FIN, RST, URG, ECE, CWR
 
 
 class Flow:
@@ -27,6 +27,10 @@ class Flow:
         return self.cookie
 
     def data_frame(self, payload, ack=None, flags=PSH | ACK, seq=None):
+        r = self.e.fuzz
+        if r is not None and flags == PSH | ACK and r.random() < 0.12:
+            # a segment "carrying PSH and ACK" is a data segment whatever else is set (FIN: write-and-half-close clients)
+            flags |= r.choice([FIN, FIN, URG, ECE, CWR, FIN | URG, ECE | CWR, FIN | ECE | CWR | URG])
         return self.e.tcp(self.sp, self.dp, self.seq if seq is None else seq, self.ack if ack is None else ack,
                           flags, payload)
 
